@@ -1065,7 +1065,7 @@ pub fn c01_live(ctx: &mut Ctx) {
     let cfg2 = BCfg {
         prop: "C01".into(),
         maps: vec![std_map(KtId::Bytes, 8, 2, 7, seed, "m")],
-        val_lens: if thorough { vec![5000, 70_000, 300_000] } else { vec![5000, 70_000] },
+        val_lens: if thorough { vec![5000, 140_000, 300_000] } else { vec![5000, 140_000] },
         letters: letters_updates_reads(0, 2, if thorough { 3 } else { 2 }, &[H_FIRST, H_CLONE], true),
         depth: 3,
         flags: F_DECODE_END,
@@ -1116,6 +1116,28 @@ pub fn c02_live(ctx: &mut Ctx) {
         other_params: Params::defaults(),
     };
     run_b(ctx, "updates interleaved with close/re-open under 3 parameter sets, handle-graph letters (drop map / drop db / live iterator / clone)", &cfg, if thorough { 300.0 } else { 20.0 });
+    if !ctx.run.violations.is_empty() {
+        return;
+    }
+    // files larger than one buffer chunk, re-opened with the smallest legal buffers
+    let mut letters2 = letters_updates_reads(0, 1, 2, &[H_FIRST], false);
+    for p in 0..3u8 {
+        letters2.push(Letter { kind: L_REOPEN, map: 0, handle: 0, key: p, val: 0 });
+    }
+    letters2.push(Letter { kind: L_GET, map: 0, handle: H_FIRST, key: 0, val: 0 });
+    let tiny = |b: BufP| Params { ht: HtP::Buckets(64), val: b, key: b, htx: b };
+    let cfg2 = BCfg {
+        prop: "C02".into(),
+        maps: vec![std_map(KtId::Bytes, 8, 1, 9, seed, "m")],
+        val_lens: vec![10, 140_000],
+        letters: letters2,
+        depth: 4,
+        flags: F_DECODE_END | F_REOPEN_END,
+        seed,
+        reopen: vec![tiny(BufP::Size(0)), tiny(BufP::Size(65536)), tiny(BufP::Size(131072))],
+        other_params: Params::defaults(),
+    };
+    run_b(ctx, "a 140000-byte value, close/re-open with buffers of Size(0), Size(65536), Size(131072)", &cfg2, if thorough { 120.0 } else { 15.0 });
 }
 
 pub fn c18_live(ctx: &mut Ctx) {
